@@ -60,6 +60,7 @@ def dec (w : Nat) (arg obs : String) : Verdict :=
     let implRest := (kv toks "rest").bind parseHex
     let spec : Option String :=
       if obs == "panic" then some "decoder panicked" else
+      if toks.contains "extra-reads" then some "the decoder asked the source for more although it held a complete number" else
       match implRest with
       | none => some "unparseable observation"
       | some ir =>
@@ -121,6 +122,8 @@ def handle (op : String) (args : List String) (obs : String) : Option Verdict :=
   match op, args with
   | "varint.enc", [a] => some (enc 32 a obs)
   | "varlong.enc", [a] => some (enc 64 a obs)
+  | "varint.encw", [a, _] => some (enc 32 a obs)
+  | "varlong.encw", [a, _] => some (enc 64 a obs)
   | "varint.dec2", [a, _, l, _] => some (dec2 32 a l obs)
   | "varlong.dec2", [a, _, l, _] => some (dec2 64 a l obs)
   | "varint.nest", [a, b] => some (nest 32 a b obs)
